@@ -435,6 +435,29 @@ theorem force_cleanup_safe (i : Input) (h : (maybeDelete i).deleted = true) :
       · simp [hx] at h
   · simp [hc] at h
 
+/-- **C10 (4a)** A forced cleanup in which the write-back of a persisted blob fails — `SyncExec` of any task
+found for it, or the lookup of the tasks — leaves the blob on disk *and still marked*: a later delete request
+is refused.  (Clearing the flag before looking at the outcome of the write-back loses the protection.) -/
+theorem force_failed_writeback_keeps_flag (i : Input) (hp : i.persist = some true) (hc : i.expired = true ∨ i.owns = false)
+    (hfail : i.findFails = true ∨ ∃ t ∈ i.tasks, t = false) :
+    (maybeDelete i).deleted = false ∧ (maybeDelete i).persistAfter = some true ∧
+    deleteAfter (maybeDelete i) = .persisted := by
+  have hcand : (i.expired || !i.owns) = true := by
+    rcases hc with h | h <;> simp [h]
+  have hex : i.findFails = false → (execAll i.tasks).2 = false := by
+    intro hff
+    rcases hfail with h | ⟨t, ht, hf⟩
+    · rw [hff] at h; cases h
+    · cases hx : (execAll i.tasks).2 with
+      | false => rfl
+      | true => have := (execAll_ok _ hx).1 t ht; rw [hf] at this; cases this
+  unfold deleteAfter maybeDelete
+  simp only [hcand, if_true, hp, beq_self_eq_true]
+  by_cases hff : i.findFails = true
+  · simp [hff]
+  · have hff' : i.findFails = false := by simpa using hff
+    simp [hff', hex hff']
+
 /-- the store-level effect of `maybeDelete` on the blob `n`: nothing unless it is a candidate; for a persisted
 blob the write-back tasks are executed first and the flag is cleared and the file deleted only if all of
 them succeeded -/
